@@ -74,6 +74,16 @@ func RunCheck(prop, tier string, procs int, budget time.Duration) int {
 		RunSched(rep, pool, parts[1], b, deadline)
 		return rep.Finish()
 	}
+	if strings.HasPrefix(prop, "kv:") {
+		// developer entry: kv:<depth>:<tier>[:disk]
+		parts := strings.Split(prop, ":")
+		d, _ := strconv.Atoi(parts[1])
+		tr, _ := strconv.Atoi(parts[2])
+		rep.Prop = "ALL"
+		rep.Rule = ruleSeq
+		RunKVBFS(rep, pool, Config{Disk: len(parts) > 3, Witness: true, TwoHandles: true, MaxDocSize: 300}, d, tr, deadline)
+		return rep.Finish()
+	}
 	if kvProps[prop] {
 		known = true
 		rep.Rule = ruleSeq
@@ -128,7 +138,7 @@ func RunCheck(prop, tier string, procs int, budget time.Duration) int {
 		known = true
 		rep.Rule = "exhaustive crash-point enumeration on the real implementation: a child process runs a write history on an on-disk bucket and is killed (SIGKILL) on entry to the N-th write-class system call (pwrite/write/ftruncate/fsync/fdatasync/unlink/rename under the bucket directory), for every N; a fresh process reopens the directory and its complete contents are compared with the states recorded after each acknowledged call; a case is one crash point"
 		rep.Assumptions = append(rep.Assumptions, "process-kill model (no power loss: data written before the kill reaches the file system)", "single-threaded histories so that system call N is the same operation in every run (checked: a divergent acknowledgement count is reported)")
-		hs := []string{"H1-kv", "H2-xattrs", "H3-multistep", "H4-collections-views"}
+		hs := []string{"H1-kv", "H2-xattrs", "H3-multistep", "H4-collections-views", "H5-close-reopen"}
 		for _, hname := range hs {
 			RunCrash(rep, hname, procs, deadline)
 		}
